@@ -17,7 +17,7 @@ func runDBG(cfg *runCfg) error {
 			Input struct {
 				Fed  *FedSpec `json:"federation"`
 				Salt uint32   `json:"salt"`
-				Host bool     `json:"hostile"`
+				Host bool     `json:"hostile_ids"`
 			} `json:"input"`
 		} `json:"case"`
 	}
@@ -41,6 +41,16 @@ func runDBG(cfg *runCfg) error {
 			q = rq.Query.Text
 			qvars = rq.Query.Vars
 			fmt.Println("query:", q, qvars)
+		}
+	}
+	if os.Getenv("DBGPLAN") != "" {
+		if plans, perr := fed.Plan(q); perr == nil {
+			for _, pl := range plans {
+				b, _ := json.MarshalIndent(dumpStep(pl.RootStep), "", " ")
+				fmt.Println(string(b))
+			}
+		} else {
+			fmt.Println("plan error:", perr)
 		}
 	}
 	seen := map[string]int{}
